@@ -189,6 +189,14 @@ def case_st(draw):
                 extra.append(["where", [["gt", ["col", "SJ", "c"], ["raw", 5]]]])
                 if draw(st.booleans()) and any(s_[0] == "groupby" for s_ in p["steps"]):
                     extra.append(["having", [["gt", ["fn", "Max", [["col", "SJ", "c"]]], ["raw", 6]]]])
+            elif k in ("T", "U", "V") and not any(s_[0] in SETOPS for s_ in p["steps"]) and draw(st.integers(0, 5)) == 0:
+                # an un-aliased subquery joined (it gets its automatic sqN then): all its columns, then one of them again - dropped as
+                # redundant whether the select() calls came before or after the join
+                other = "U" if k != "U" else "V"
+                p["sources"] = dict(p["sources"], SQJ=["sub", {"cls": "inherit", "sources": {}, "steps": [["from_", [["src", other]]], ["select", [["col", other, "a"], ["col", other, "b"]]]]}, None])
+                extra.append(["join", [["src", "SQJ"], ["enum", "JoinType", "inner"]], {}, ["on", [["eq", ["col", k, "a"], ["col", "SQJ", "a"]]]]])
+                extra.append(["select", [["star", "SQJ"]]])
+                extra.append(["select", [["col", "SQJ", "b"]]])
         # set-operation creation stays a barrier; insert the extras before it
         cut = next((i for i, s in enumerate(p["steps"]) if s[0] in SETOPS), len(p["steps"]))
         p["steps"] = p["steps"][:cut] + extra + p["steps"][cut:]
